@@ -269,7 +269,7 @@ func (x *TExec) opConnect(st *TStep) { //nolint:cyclop
 			}
 		}
 		if inUse {
-			x.fail([]string{"C16"}, "connection-id-reused", "CONNECTION-ID %#x was handed out before (and names a connection that is still there)", id)
+			x.fail(x.idProps(id, c), "connection-id-reused", "CONNECTION-ID %#x was handed out before (and names a connection that is still there)", id)
 
 			return
 		}
@@ -319,6 +319,24 @@ func (x *TExec) opConnect(st *TStep) { //nolint:cyclop
 	}
 	a.conns = append(a.conns, tc)
 	x.St.inc("tcp:connect-success")
+}
+
+// idProps: a connection id that is handed out twice breaks C16; when the connection that already
+// carries it belongs to another client's allocation, one 5-tuple's connection has become
+// reachable (bindable, closable) through another's id - C04.
+func (x *TExec) idProps(id uint32, c *tClient) []string {
+	props := []string{"C16"}
+	for _, o := range x.w.clients {
+		if o != c && o.alloc != nil {
+			for _, tc := range o.alloc.conns {
+				if tc.id == id && !tc.gone {
+					return []string{"C16", "C04"}
+				}
+			}
+		}
+	}
+
+	return props
 }
 
 func (x *TExec) opPeerConnect(st *TStep) {
@@ -419,7 +437,7 @@ func (x *TExec) opPeerConnect(st *TStep) {
 	}
 	id := binary.BigEndian.Uint32(idv)
 	if x.w.seenIDs[id] {
-		x.fail([]string{"C16"}, "connection-id-reused", "CONNECTION-ID %#x was handed out before", id)
+		x.fail(x.idProps(id, c), "connection-id-reused", "CONNECTION-ID %#x was handed out before", id)
 
 		return
 	}
